@@ -18,8 +18,8 @@
      the value it holds (objects carry their type name, which is what a method call dispatches on).
    * declarations are function-scoped (the translator refuses a declaration that shadows a visible
      name, so block scoping cannot be observed).
-   * fuel is a DEPTH: every recursive call of the interpreter passes [fuel-1] down; a loop re-enters
-     itself with one unit less per iteration.  Out of fuel is [RFuel]. *)
+   * fuel is a DEPTH: one unit per level of nesting of expressions / statements, per call and per
+     loop iteration (a loop re-enters itself one level down).  Out of fuel is [RFuel]. *)
 From Verif Require Import Base.
 From Coq Require Import PArith.
 
@@ -189,55 +189,137 @@ Definition spread (n : nat) (vs : list val) : option (list val) :=
   if length vs =? n then Some vs
   else match vs with [VTuple l] => if length l =? n then Some l else None | _ => None end.
 
-Fixpoint eval (fuel : nat) (e : expr) (en : env) {struct fuel} : res (val * env) :=
-  match fuel with 0 => RFuel | S f =>
+(* The interpreter is written with open recursion: the functions below take the interpreter "one
+   level down" as a record [r] of four callbacks and are not recursive themselves, except for
+   structural recursion over lists of expressions / statements / cases / elements.  [interp_at]
+   ties the knot on the fuel.  (Proofs unfold one level at a time; a mutual fixpoint of this size is
+   very slow to unfold.) *)
+Record interp := {
+  i_eval : expr -> env -> res (val * env);
+  i_assign : expr -> val -> env -> res env;
+  i_exec : stmt -> env -> res (sig * env);
+  i_loop : option expr -> option stmt -> list stmt -> env -> res (sig * env);
+  i_call : val -> ident -> list val -> res (val * val)
+}.
+
+Section Step.
+Variable r : interp.   (* the interpreter one level down *)
+
+Fixpoint evals (es : list expr) (en : env) : res (list val * env) :=
+  match es with
+  | [] => ROk ([], en)
+  | e :: t => do (v, en1) <- i_eval r e en; do (vs, en2) <- evals t en1; ROk (v :: vs, en2)
+  end.
+
+(* the fields of a composite literal, over the zero values of the declared fields *)
+Fixpoint fields (fs : list (ident * expr)) (acc : list (ident * val)) (en : env) : res (list (ident * val) * env) :=
+  match fs with
+  | [] => ROk (acc, en)
+  | (x, e) :: t =>
+    do (v, en1) <- i_eval r e en;
+    match lookup x acc with Some _ => fields t (set x v acc) en1 | None => RStuck end
+  end.
+
+Fixpoint assigns (lhs : list expr) (vs : list val) (en : env) : res env :=
+  match lhs, vs with
+  | [], [] => ROk en
+  | t :: lhs', v :: vs' => do en1 <- i_assign r t v en; assigns lhs' vs' en1
+  | _, _ => RStuck
+  end.
+
+Fixpoint execs (ss : list stmt) (en : env) : res (sig * env) :=
+  match ss with
+  | [] => ROk (SgNormal, en)
+  | s :: t =>
+    do (sg, en1) <- i_exec r s en;
+    match sg with SgNormal => execs t en1 | _ => ROk (sg, en1) end
+  end.
+
+(* does the tag equal one of the case expressions (evaluated in order, as far as needed)? *)
+Fixpoint matches (tv : val) (es : list expr) (en : env) : res (bool * env) :=
+  match es with
+  | [] => ROk (false, en)
+  | e :: t =>
+    do (v, en1) <- i_eval r e en;
+    do b <- arith BEq tv v;
+    match b with VBool true => ROk (true, en1) | _ => matches tv t en1 end
+  end.
+
+(* the body of the first matching case; the default when there is none *)
+Fixpoint select (tv : val) (cases : list (option (list expr) * list stmt)) (dflt : option (list stmt)) (en : env)
+  : res (list stmt * env) :=
+  match cases with
+  | [] => ROk (match dflt with Some b => b | None => [] end, en)
+  | (None, body) :: t => select tv t (Some body) en
+  | (Some es, body) :: t =>
+    do (hit, en1) <- matches tv es en;
+    if hit then ROk (body, en1) else select tv t dflt en1
+  end.
+
+(* for k, x := range l *)
+Fixpoint range (k x : option ident) (l : list val) (i : Z) (body : list stmt) (en : env) : res (sig * env) :=
+  match l with
+  | [] => ROk (SgNormal, en)
+  | w :: t =>
+    let en1 := match k with Some k' => set k' (VInt i) en | None => en end in
+    let en2 := match x with Some x' => set x' w en1 | None => en1 end in
+    do (sg, en3) <- execs body en2;
+    match sg with
+    | SgBreak => ROk (SgNormal, en3)
+    | SgReturn _ => ROk (sg, en3)
+    | _ => range k x t (i + 1) body en3
+    end
+  end.
+
+Definition eval_step (e : expr) (en : env) : res (val * env) :=
+  let eval := i_eval r in
   match e with
   | EInt z => ROk (VInt z, en)
   | EBool b => ROk (VBool b, en)
   | ENil => ROk (VNil, en)
   | EVar x => match lookup x en with Some v => ROk (v, en) | None => RStuck end
   | EField e' fld =>
-    do (v, en1) <- eval f e' en;
+    do (v, en1) <- eval e' en;
     match v with
     | VObj _ fs => match lookup fld fs with Some w => ROk (w, en1) | None => RStuck end
     | _ => RStuck
     end
   | EBin BAnd a b =>
-    do (va, en1) <- eval f a en;
+    do (va, en1) <- eval a en;
     match va with
     | VBool false => ROk (VBool false, en1)
-    | VBool true => do (vb, en2) <- eval f b en1; match vb with VBool _ => ROk (vb, en2) | _ => RStuck end
+    | VBool true => do (vb, en2) <- eval b en1; match vb with VBool _ => ROk (vb, en2) | _ => RStuck end
     | _ => RStuck
     end
   | EBin BOr a b =>
-    do (va, en1) <- eval f a en;
+    do (va, en1) <- eval a en;
     match va with
     | VBool true => ROk (VBool true, en1)
-    | VBool false => do (vb, en2) <- eval f b en1; match vb with VBool _ => ROk (vb, en2) | _ => RStuck end
+    | VBool false => do (vb, en2) <- eval b en1; match vb with VBool _ => ROk (vb, en2) | _ => RStuck end
     | _ => RStuck
     end
   | EBin op a b =>
-    do (va, en1) <- eval f a en;
-    do (vb, en2) <- eval f b en1;
-    do r <- arith op va vb; ROk (r, en2)
-  | EUn UNeg a => do (va, en1) <- eval f a en; match va with VInt x => ROk (VInt (- x), en1) | _ => RStuck end
-  | EUn UNot a => do (va, en1) <- eval f a en; match va with VBool x => ROk (VBool (negb x), en1) | _ => RStuck end
+    do (va, en1) <- eval a en;
+    do (vb, en2) <- eval b en1;
+    do x <- arith op va vb; ROk (x, en2)
+  | EUn UNeg a => do (va, en1) <- eval a en; match va with VInt x => ROk (VInt (- x), en1) | _ => RStuck end
+  | EUn UNot a => do (va, en1) <- eval a en; match va with VBool x => ROk (VBool (negb x), en1) | _ => RStuck end
   | ELen e' =>
-    do (v, en1) <- eval f e' en;
+    do (v, en1) <- eval e' en;
     match as_slice v with Some l => ROk (VInt (Z.of_nat (length l)), en1) | None => RStuck end
   | EIndex e' i =>
-    do (v, en1) <- eval f e' en;
-    do (vi, en2) <- eval f i en1;
+    do (v, en1) <- eval e' en;
+    do (vi, en2) <- eval i en1;
     match as_slice v, vi with
     | Some l, VInt z => match zidx l z with Some w => ROk (w, en2) | None => RPanic end
     | _, _ => RStuck
     end
   | ESlice e' lo hi =>
-    do (v, en1) <- eval f e' en;
-    do (vlo, en2) <- match lo with Some x => eval f x en1 | None => ROk (VInt 0, en1) end;
+    do (v, en1) <- eval e' en;
+    do (vlo, en2) <- match lo with Some x => eval x en1 | None => ROk (VInt 0, en1) end;
     match as_slice v with
     | Some l =>
-      do (vhi, en3) <- match hi with Some x => eval f x en2 | None => ROk (VInt (Z.of_nat (length l)), en2) end;
+      do (vhi, en3) <- match hi with Some x => eval x en2 | None => ROk (VInt (Z.of_nat (length l)), en2) end;
       match vlo, vhi with
       | VInt a, VInt b => match zsub l a b with Some l' => ROk (re_slice v l', en3) | None => RPanic end
       | _, _ => RStuck
@@ -245,108 +327,91 @@ Fixpoint eval (fuel : nat) (e : expr) (en : env) {struct fuel} : res (val * env)
     | None => RStuck
     end
   | EMake zk n =>
-    do (vn, en1) <- eval f n en;
+    do (vn, en1) <- eval n en;
     match vn with
     | VInt z => if (z <? 0)%Z || (two63 <=? z)%Z then RPanic
                 else ROk (VSlice (repeat (zero_of zk) (Z.to_nat z)), en1)
     | _ => RStuck
     end
   | ECopy dst src =>
-    do (vd, en1) <- eval f dst en;
-    do (vs, en2) <- eval f src en1;
+    do (vd, en1) <- eval dst en;
+    do (vs, en2) <- eval src en1;
     match as_slice vd, as_slice vs with
     | Some ld, Some ls =>
-      do en3 <- assign f dst (re_slice vd (zcopy ld ls)) en2;
+      do en3 <- i_assign r dst (re_slice vd (zcopy ld ls)) en2;
       ROk (VInt (Z.of_nat (Nat.min (length ld) (length ls))), en3)
     | _, _ => RStuck
     end
   | EAppend s args =>
-    do (vs, en1) <- eval f s en;
-    do (vas, en2) <- evals f args en1;
+    do (vs, en1) <- eval s en;
+    do (vas, en2) <- evals args en1;
     match as_slice vs with Some l => ROk (re_slice vs (l ++ vas), en2) | None => RStuck end
   | EToInt e' =>
-    do (v, en1) <- eval f e' en;
+    do (v, en1) <- eval e' en;
     match v with VInt z => ROk (VInt (if (two63 <=? z)%Z then z - two64 else z), en1) | _ => RStuck end
   | EToUint e' =>
-    do (v, en1) <- eval f e' en;
+    do (v, en1) <- eval e' en;
     match v with VInt z => ROk (VInt (if (z <? 0)%Z then z + two64 else z), en1) | _ => RStuck end
   | EConv t e' =>
-    do (v, en1) <- eval f e' en;
+    do (v, en1) <- eval e' en;
     match as_slice v with Some l => ROk (VNamed t (VSlice l), en1) | None => RStuck end
-  | EClass c args => do (_, en1) <- evals f args en; ROk (VObj c [], en1)
+  | EClass c args => do (_, en1) <- evals args en; ROk (VObj c [], en1)
   | ENew t fs =>
     match lookup t (p_structs prog) with
-    | Some decl => do (fv, en1) <- fields f fs (map (fun d => (fst d, zero_of (snd d))) decl) en; ROk (VObj t fv, en1)
+    | Some decl => do (fv, en1) <- fields fs (map (fun d => (fst d, zero_of (snd d))) decl) en; ROk (VObj t fv, en1)
     | None => RStuck
     end
-  | ECall r m args =>
-    do (rv0, en1) <- eval f r en;
-    do (avs, en2) <- evals f args en1;
-    if is_place r then
+  | ECall rc m args =>
+    do (rv0, en1) <- eval rc en;
+    do (avs, en2) <- evals args en1;
+    if is_place rc then
       (* the receiver is re-read after the arguments (it is a pointer, or a slice sharing its elements),
          and the callee's final receiver value is written back *)
-      do (rv, _) <- eval f r en2;
-      do (out, rv') <- call f rv m avs;
-      do en3 <- assign f r rv' en2;
+      do (rv, _) <- eval rc en2;
+      do (out, rv') <- i_call r rv m avs;
+      do en3 <- i_assign r rc rv' en2;
       ROk (out, en3)
     else
-      do (out, _) <- call f rv0 m avs; ROk (out, en2)
-  | EMethVal r m => do (rv, en1) <- eval f r en; ROk (VMeth rv m, en1)
+      do (out, _) <- i_call r rv0 m avs; ROk (out, en2)
+  | EMethVal rc m => do (rv, en1) <- eval rc en; ROk (VMeth rv m, en1)
   | ECallVal fn args =>
-    do (fv, en1) <- eval f fn en;
-    do (avs, en2) <- evals f args en1;
+    do (fv, en1) <- eval fn en;
+    do (avs, en2) <- evals args en1;
     match fv with
-    | VMeth rv m => do (out, _) <- call f rv m avs; ROk (out, en2)
+    | VMeth rv m => do (out, _) <- i_call r rv m avs; ROk (out, en2)
     | _ => RStuck
     end
-  end end
-
-with evals (fuel : nat) (es : list expr) (en : env) {struct fuel} : res (list val * env) :=
-  match fuel with 0 => RFuel | S f =>
-  match es with
-  | [] => ROk ([], en)
-  | e :: t => do (v, en1) <- eval f e en; do (vs, en2) <- evals f t en1; ROk (v :: vs, en2)
-  end end
-
-(* the fields of a composite literal, over the zero values of the declared fields *)
-with fields (fuel : nat) (fs : list (ident * expr)) (acc : list (ident * val)) (en : env) {struct fuel}
-  : res (list (ident * val) * env) :=
-  match fuel with 0 => RFuel | S f =>
-  match fs with
-  | [] => ROk (acc, en)
-  | (x, e) :: t =>
-    do (v, en1) <- eval f e en;
-    match lookup x acc with Some _ => fields f t (set x v acc) en1 | None => RStuck end
-  end end
+  end.
 
 (* store v into the place / element / segment denoted by the target expression *)
-with assign (fuel : nat) (target : expr) (v : val) (en : env) {struct fuel} : res env :=
-  match fuel with 0 => RFuel | S f =>
+Definition assign_step (target : expr) (v : val) (en : env) : res env :=
+  let eval := i_eval r in
+  let assign := i_assign r in
   match target with
   | EVar x => match lookup x en with Some _ => ROk (set x v en) | None => RStuck end
   | EField t fld =>
-    do (tv, en1) <- eval f t en;
+    do (tv, en1) <- eval t en;
     match tv with
-    | VObj ty fs => match lookup fld fs with Some _ => assign f t (VObj ty (set fld v fs)) en1 | None => RStuck end
+    | VObj ty fs => match lookup fld fs with Some _ => assign t (VObj ty (set fld v fs)) en1 | None => RStuck end
     | _ => RStuck
     end
   | EIndex t i =>
-    do (tv, en1) <- eval f t en;
-    do (vi, en2) <- eval f i en1;
+    do (tv, en1) <- eval t en;
+    do (vi, en2) <- eval i en1;
     match as_slice tv, vi with
-    | Some l, VInt z => match zset l z v with Some l' => assign f t (re_slice tv l') en2 | None => RPanic end
+    | Some l, VInt z => match zset l z v with Some l' => assign t (re_slice tv l') en2 | None => RPanic end
     | _, _ => RStuck
     end
   | ESlice t lo hi =>
-    do (tv, en1) <- eval f t en;
-    do (vlo, en2) <- match lo with Some x => eval f x en1 | None => ROk (VInt 0, en1) end;
+    do (tv, en1) <- eval t en;
+    do (vlo, en2) <- match lo with Some x => eval x en1 | None => ROk (VInt 0, en1) end;
     match as_slice tv, as_slice v with
     | Some l, Some seg =>
-      do (vhi, en3) <- match hi with Some x => eval f x en2 | None => ROk (VInt (Z.of_nat (length l)), en2) end;
+      do (vhi, en3) <- match hi with Some x => eval x en2 | None => ROk (VInt (Z.of_nat (length l)), en2) end;
       match vlo, vhi with
       | VInt a, VInt b =>
         match zsub l a b with
-        | Some old => if length old =? length seg then assign f t (re_slice tv (zsplice l a b seg)) en3 else RStuck
+        | Some old => if length old =? length seg then assign t (re_slice tv (zsplice l a b seg)) en3 else RStuck
         | None => RPanic
         end
       | _, _ => RStuck
@@ -354,128 +419,82 @@ with assign (fuel : nat) (target : expr) (v : val) (en : env) {struct fuel} : re
     | _, _ => RStuck
     end
   | _ => RStuck
-  end end
+  end.
 
-with exec (fuel : nat) (s : stmt) (en : env) {struct fuel} : res (sig * env) :=
-  match fuel with 0 => RFuel | S f =>
+Definition exec_step (s : stmt) (en : env) : res (sig * env) :=
+  let eval := i_eval r in
+  let assign := i_assign r in
+  let exec := i_exec r in
   match s with
   | SVar xs (Some zk) [] =>
     ROk (SgNormal, fold_left (fun e x => set x (zero_of zk) e) xs en)
   | SVar xs _ init =>
-    do (vs, en1) <- evals f init en;
+    do (vs, en1) <- evals init en;
     match spread (length xs) vs with
     | Some ws => match bind_all xs ws en1 with Some en2 => ROk (SgNormal, en2) | None => RStuck end
     | None => RStuck
     end
   | SAssign lhs rhs =>
-    do (vs, en1) <- evals f rhs en;
+    do (vs, en1) <- evals rhs en;
     match spread (length lhs) vs with
-    | Some ws => do en2 <- assigns f lhs ws en1; ROk (SgNormal, en2)
+    | Some ws => do en2 <- assigns lhs ws en1; ROk (SgNormal, en2)
     | None => RStuck
     end
   | SOpAssign op lhs rhs =>
-    do (a, en1) <- eval f lhs en;
-    do (b, en2) <- eval f rhs en1;
-    do r <- arith op a b;
-    do en3 <- assign f lhs r en2; ROk (SgNormal, en3)
+    do (a, en1) <- eval lhs en;
+    do (b, en2) <- eval rhs en1;
+    do x <- arith op a b;
+    do en3 <- assign lhs x en2; ROk (SgNormal, en3)
   | SIncDec inc lhs =>
-    do (a, en1) <- eval f lhs en;
-    do r <- arith (if inc then BAdd else BSub) a (VInt 1);
-    do en2 <- assign f lhs r en1; ROk (SgNormal, en2)
+    do (a, en1) <- eval lhs en;
+    do x <- arith (if inc then BAdd else BSub) a (VInt 1);
+    do en2 <- assign lhs x en1; ROk (SgNormal, en2)
   | SIf c th el =>
-    do (vc, en1) <- eval f c en;
+    do (vc, en1) <- eval c en;
     match vc with
-    | VBool true => execs f th en1
-    | VBool false => execs f el en1
+    | VBool true => execs th en1
+    | VBool false => execs el en1
     | _ => RStuck
     end
   | SSwitch tag cases =>
-    do (tv, en1) <- match tag with Some t => eval f t en | None => ROk (VBool true, en) end;
-    do (body, en2) <- select f tv cases None en1;
-    do (sg, en3) <- execs f body en2;
+    do (tv, en1) <- match tag with Some t => eval t en | None => ROk (VBool true, en) end;
+    do (body, en2) <- select tv cases None en1;
+    do (sg, en3) <- execs body en2;
     ROk (match sg with SgBreak => SgNormal | _ => sg end, en3)
-  | SFor (Some i) c post body =>
-    do (_, en1) <- exec f i en; exec f (SFor None c post body) en1
-  | SFor None c post body =>
-    do (vc, en1) <- match c with Some c' => eval f c' en | None => ROk (VBool true, en) end;
-    match vc with
-    | VBool false => ROk (SgNormal, en1)
-    | VBool true =>
-      do (sg, en2) <- execs f body en1;
-      match sg with
-      | SgBreak => ROk (SgNormal, en2)
-      | SgReturn _ => ROk (sg, en2)
-      | _ =>
-        do (_, en3) <- match post with Some p => exec f p en2 | None => ROk (SgNormal, en2) end;
-        exec f (SFor None c post body) en3
-      end
-    | _ => RStuck
-    end
+  | SFor init c post body =>
+    do (_, en1) <- match init with Some i => exec i en | None => ROk (SgNormal, en) end;
+    i_loop r c post body en1
   | SRange k x e body =>
-    do (v, en1) <- eval f e en;
-    match as_slice v with Some l => range f k x l 0 body en1 | None => RStuck end
-  | SReturn es => do (vs, en1) <- evals f es en; ROk (SgReturn (ret_val vs), en1)
+    do (v, en1) <- eval e en;
+    match as_slice v with Some l => range k x l 0 body en1 | None => RStuck end
+  | SReturn es => do (vs, en1) <- evals es en; ROk (SgReturn (ret_val vs), en1)
   | SPanic => RPanic
-  | SExpr e => do (_, en1) <- eval f e en; ROk (SgNormal, en1)
-  | SBlock b => execs f b en
+  | SExpr e => do (_, en1) <- eval e en; ROk (SgNormal, en1)
+  | SBlock b => execs b en
   | SBreak => ROk (SgBreak, en)
   | SContinue => ROk (SgContinue, en)
-  end end
+  end.
 
-with execs (fuel : nat) (ss : list stmt) (en : env) {struct fuel} : res (sig * env) :=
-  match fuel with 0 => RFuel | S f =>
-  match ss with
-  | [] => ROk (SgNormal, en)
-  | s :: t =>
-    do (sg, en1) <- exec f s en;
-    match sg with SgNormal => execs f t en1 | _ => ROk (sg, en1) end
-  end end
-
-with assigns (fuel : nat) (lhs : list expr) (vs : list val) (en : env) {struct fuel} : res env :=
-  match fuel with 0 => RFuel | S f =>
-  match lhs, vs with
-  | [], [] => ROk en
-  | t :: lhs', v :: vs' => do en1 <- assign f t v en; assigns f lhs' vs' en1
-  | _, _ => RStuck
-  end end
-
-(* the body of the first case with an expression equal to the tag (expressions are evaluated in order,
-   as far as needed); the default when there is none *)
-with select (fuel : nat) (tv : val) (cases : list (option (list expr) * list stmt)) (dflt : option (list stmt))
-            (en : env) {struct fuel} : res (list stmt * env) :=
-  match fuel with 0 => RFuel | S f =>
-  match cases with
-  | [] => ROk (match dflt with Some b => b | None => [] end, en)
-  | (None, body) :: t => select f tv t (Some body) en
-  | (Some [], _) :: t => select f tv t dflt en
-  | (Some (e :: es), body) :: t =>
-    do (v, en1) <- eval f e en;
-    do b <- arith BEq tv v;
-    match b with
-    | VBool true => ROk (body, en1)
-    | _ => select f tv ((Some es, body) :: t) dflt en1
-    end
-  end end
-
-with range (fuel : nat) (k x : option ident) (l : list val) (i : Z) (body : list stmt) (en : env) {struct fuel}
+(* for c; post { body }: one iteration, then [again] (one unit of fuel per iteration) *)
+Definition loop_step (again : env -> res (sig * env)) (c : option expr) (post : option stmt) (body : list stmt) (en : env)
   : res (sig * env) :=
-  match fuel with 0 => RFuel | S f =>
-  match l with
-  | [] => ROk (SgNormal, en)
-  | w :: t =>
-    let en1 := match k with Some k' => set k' (VInt i) en | None => en end in
-    let en2 := match x with Some x' => set x' w en1 | None => en1 end in
-    do (sg, en3) <- execs f body en2;
+  do (vc, en1) <- match c with Some c' => i_eval r c' en | None => ROk (VBool true, en) end;
+  match vc with
+  | VBool false => ROk (SgNormal, en1)
+  | VBool true =>
+    do (sg, en2) <- execs body en1;
     match sg with
-    | SgBreak => ROk (SgNormal, en3)
-    | SgReturn _ => ROk (sg, en3)
-    | _ => range f k x t (i + 1) body en3
+    | SgBreak => ROk (SgNormal, en2)
+    | SgReturn _ => ROk (sg, en2)
+    | _ =>
+      do (_, en3) <- match post with Some p => i_exec r p en2 | None => ROk (SgNormal, en2) end;
+      again en3
     end
-  end end
+  | _ => RStuck
+  end.
 
 (* run method m of the dynamic type of recv: (result, final receiver value) *)
-with call (fuel : nat) (recv : val) (m : ident) (args : list val) {struct fuel} : res (val * val) :=
-  match fuel with 0 => RFuel | S f =>
+Definition call_step (recv : val) (m : ident) (args : list val) : res (val * val) :=
   match type_of recv with
   | None => RStuck
   | Some t =>
@@ -484,7 +503,7 @@ with call (fuel : nat) (recv : val) (m : ident) (args : list val) {struct fuel} 
       match bind_all (fn_params fd) args [(fn_recv fd, recv)] with
       | None => RStuck
       | Some en0 =>
-        do (sg, en1) <- execs f (fn_body fd) en0;
+        do (sg, en1) <- execs (fn_body fd) en0;
         match lookup (fn_recv fd) en1 with
         | None => RStuck
         | Some recv' =>
@@ -497,13 +516,31 @@ with call (fuel : nat) (recv : val) (m : ident) (args : list val) {struct fuel} 
       end
     | None => match ext t m recv args with Some v => ROk (v, recv) | None => RStuck end
     end
-  end end.
+  end.
+End Step.
+
+Definition bottom : interp :=
+  {| i_eval := fun _ _ => RFuel; i_assign := fun _ _ _ => RFuel; i_exec := fun _ _ => RFuel;
+     i_loop := fun _ _ _ _ => RFuel; i_call := fun _ _ _ => RFuel |}.
+
+(* Tying the knot.  fuel = nesting depth of expressions and statements + loop iterations + call depth. *)
+Fixpoint interp_at (fuel : nat) : interp :=
+  match fuel with
+  | 0 => bottom
+  | S f =>
+    let r := interp_at f in
+    {| i_eval := eval_step r; i_assign := assign_step r; i_exec := exec_step r;
+       i_loop := fun c post body => loop_step r (i_loop r c post body) c post body;
+       i_call := call_step r |}
+  end.
+
+Definition call_at (fuel : nat) := i_call (interp_at fuel).
 
 (* what the theorems talk about: outcome of calling method m on recv with args.
    A stuck execution (ill-typed for this interpreter) is reported as [Hang], like running out of
    fuel: every theorem excludes [Hang], hence both. *)
 Definition run_method (fuel : nat) (recv : val) (m : ident) (args : list val) : out (val * val) :=
-  match call fuel recv m args with
+  match call_at fuel recv m args with
   | ROk r => Ret r
   | RPanic => Panic
   | RStuck => Hang
@@ -514,4 +551,7 @@ End Interp.
 
 Arguments VInt {A}. Arguments VBool {A}. Arguments VElem {A}. Arguments VNil {A}. Arguments VSlice {A}.
 Arguments VObj {A}. Arguments VNamed {A}. Arguments VTuple {A}. Arguments VMeth {A}.
+(* proofs unfold the interpreter one level at a time, by rewriting (GenLib.v) *)
+Arguments interp_at : simpl never.
+Arguments i_eval {A}. Arguments i_assign {A}. Arguments i_exec {A}. Arguments i_loop {A}. Arguments i_call {A}.
 Arguments SgNormal {A}. Arguments SgReturn {A}. Arguments SgBreak {A}. Arguments SgContinue {A}.
